@@ -31,6 +31,8 @@ def rec_single(r, name, type_, label, blob, plain, delims=(b" ", b" "), value=No
            "layers": [{"name": name, "type": type_, "label": label, "plain": plain, "value": plain if value is None else value, "inner_off": 0}]}
     if wrap:
         rec["wrap"] = True
+    elif r.random() < 0.2:
+        rec["decoy"] = True
     return rec
 
 
@@ -233,7 +235,12 @@ LIT_ALPHA = bytes(c for c in range(0x20, 0x7F) if c not in b"\"'\\`")
 def literal(r, lo=0, hi=12):
     n = r.randint(lo, hi)
     alpha = r.choice([LIT_ALPHA, b"abAB", b"aaab", b"xX-_/.:+& ", b"abcdefgXYZ019"])
-    return bytes(r.choice(alpha) for _ in range(n))
+    out = bytes(r.choice(alpha) for _ in range(n))
+    if n >= 2 and r.random() < 0.15:
+        # text that looks like a joining operator or an XML entity inside the literal is still literal text
+        pos = r.randrange(1, len(out))
+        out = out[:pos] + r.choice([b"&amp;", b"&amp;amp;", b"&lt;", b" + ", b"&", b"_"]) + out[pos:]
+    return out
 
 
 def c15_case(r):
